@@ -265,6 +265,26 @@ def history(rng, v, slot, n, near=None, stats=None):
     return ops
 
 
+def cast_seek_block(rng, v, stats, every=1):
+    """seeks to the positions at which a cast to a narrower / signed integer type changes character (rule 20), each
+    through every SeekNum type that can hold it, followed by the reported position and a short read"""
+    ops = ["chacha new 0 %s %s %s" % (v, hx(struct_bytes(rng, 32)), hx(struct_bytes(rng, NONCE[v])))]
+    for n, p in enumerate(cast_boundaries(rng, 128)):
+        if n % every:
+            continue
+        tys = [t for t, (lo, hi) in SEEKTYS.items() if lo <= p <= hi]
+        for t in (tys if p < 2**16 or n % 7 == 0 else [tys[n % len(tys)]]):
+            ops.append("chacha seek 0 %s %d" % (t, p))
+            ops.append("chacha pos 0 %s" % rng.choice(["u128", "u64", t]))
+            ops.append("chacha applypat 0 %d 4" % rng.choice([1, 3, 64, 65]))
+            stats["cast_boundary_seeks"] = stats.get("cast_boundary_seeks", 0) + 1
+    for p in (-1, -2**31, -64, -2**31 + 1):
+        ops.append("chacha seek 0 i32 %d" % p)
+        ops.append("chacha pos 0 u128")
+        ops.append("chacha applypat 0 5 4")
+    return ops
+
+
 def gen_C02(rng, tier, cfg):
     backends = backends_for(cfg, tier)
     ops, stats = [], {}
@@ -297,6 +317,7 @@ def gen_C02(rng, tier, cfg):
                     ops.append("chacha pos 0 u128")
                     ops.append("chacha applypat 0 %d 3" % rng.choice([1, 64, 65]))
                     stats["special_from_buffered"] = stats.get("special_from_buffered", 0) + 1
+            ops += cast_seek_block(rng, v, stats, 1 if tier != "quick" else 2)
             # one very long request in a single call (2^24 bytes; thorough: also > 2^32 bytes), from a
             # mid-block position; both ends of the output and the position afterwards are compared
             ops.append("chacha new 0 %s %s %s" % (v, hx(struct_bytes(rng, 32)), hx(struct_bytes(rng, NONCE[v]))))
